@@ -94,12 +94,22 @@ static uint8_t *c13_dec_end;		/* one past a C13_ENCCAP-byte area for exactly-siz
 static uint8_t *c13_enc_end;		/* one past a C13_ENCCAP-byte encode buffer ending at a PROT_NONE page */
 
 static unsigned c13_width(int fi) { return fi == 0 ? 2 : 4; }	/* sample width in bytes: the meaning of the format argument */
+/* The explored state is what the two mutators leave behind - in the structure and in whatever statics the library keeps
+ * (vx_bfs snapshots those too). The calls the oracle and the scope guard make (validate, encode, decode, get_format) are
+ * observations: the library's statics are put back afterwards, so an observation cannot become part of the state (a call
+ * counter inside decode would otherwise make every state new and the graph infinite). */
+static void *c13_libimg;
+static volatile int c13_in_obs;
+static void c13_obs_begin(void) { if (vx_lib_size()) { if (!c13_libimg && !(c13_libimg = malloc(vx_lib_size()))) _exit(3); vx_lib_save(c13_libimg); } }
+static void c13_obs_end(void) { if (c13_libimg) vx_lib_restore(c13_libimg); }
 /* the number of bytes the real encoder emits for the live header (the data size does not enter it); 0 = the encoder
  * faults or answers nonsense, which the oracle reports when the state is judged */
 static unsigned c13_hdrlen(void)
 {
 	rf_wavheader_t tmp = L.h; int el = -1;
+	c13_obs_begin();
 	if (VX_TRY) { el = rf_wavheader_encode(&tmp, c13_enc_end - C13_ENCCAP, C13_ENCCAP); VX_END; } else { VX_END; el = -1; }
+	c13_obs_end();
 	if (el < 12 || el > C13_ENCCAP) { hdrlen_unknown++; return 0; }
 	return (unsigned)el;
 }
@@ -290,8 +300,12 @@ static int op_apply(int op)
 		L.m.phase = 1; L.m.fill = c13_fills[op];
 		return 0;
 	}
+	/* (the frame count is worked out before the guarded section: it asks the real encoder for the header length, which is
+	 * a guarded section of its own) */
+	uint64_t nframes = op >= OP_FRAMES0 ? frames_of(op - OP_FRAMES0) : 0;
 	if (!(VX_TRY)) {
 		VX_END;
+		if (c13_in_obs) { c13_in_obs = 0; c13_obs_end(); }
 		char key[400]; snprintf(key, sizeof(key), "fault|%s", vx_fault_msg);
 		c13_fail(key, "%s", vx_fault_msg);
 		return 1;
@@ -302,10 +316,9 @@ static int op_apply(int op)
 		rf_wavheader_init(&L.h, c13_rates[r], c13_chans[c], c13_fmts[f]);
 		L.m.phase = 2; L.m.fill = 0; L.m.fmt_i = (uint8_t)f; L.m.rate = c13_rates[r]; L.m.ch = c13_chans[c]; L.m.frames = 0;
 	} else {
-		uint64_t n = frames_of(op - OP_FRAMES0);
 		n_op_frames[op - OP_FRAMES0]++;
-		rf_wavheader_set_num_frames(&L.h, (unsigned)n);
-		L.m.frames = (uint32_t)n;
+		rf_wavheader_set_num_frames(&L.h, (unsigned)nframes);
+		L.m.frames = (uint32_t)nframes;
 	}
 	for (int i = 0; i < 16; i++)
 		if (L.pre[i] != 0xc5 || L.post[i] != 0xc5) {
@@ -313,7 +326,9 @@ static int op_apply(int op)
 			c13_fail("canary", "bytes next to the structure were overwritten");
 			return 1;
 		}
+	c13_obs_begin(); c13_in_obs = 1;
 	check_state();
+	c13_in_obs = 0; c13_obs_end();
 	VX_END;
 	return 0;
 }
@@ -386,9 +401,10 @@ int main(int argc, char **argv)
 	 * require the identical state image; vacuity - every live alphabet entry was exercised */
 	w_silent = 1;
 	for (uint64_t k = 0; k < 64 && k < b.st.n; k++) {
-		static uint32_t ops[64]; static struct c13_live want;
+		static uint32_t ops[256]; static struct c13_live want;
 		uint64_t idx = b.st.n * k / 64;
-		int n = vx_store_trace(&b.st, idx, ops, 64);
+		if (b.st.depth[idx] > 256) continue;	/* (only a graph that did not close has such states) */
+		int n = vx_store_trace(&b.st, idx, ops, 256);
 		memcpy(&want, b.st.data + idx * b.st.ssz, sizeof(want));	/* the live part of the stored state */
 		setup(); vx_lib_reset(); b.cur = 0;
 		for (int i = 0; i < n; i++) { b.cur_op = (int)ops[i]; op_apply((int)ops[i]); }
